@@ -19,7 +19,7 @@ Open Scope Z_scope.
 
 Definition bytes := list Z.
 Definition dict := list (string * Z).
-Definition len {A} (l : list A) : Z := Z.of_nat (length l).
+Definition len {A} (l : list A) : Z := Z.of_nat (List.length l).
 
 (* ------------------------------------------------------------------ dictionaries *)
 Fixpoint lookup (k : string) (d : dict) : option Z :=
@@ -126,7 +126,7 @@ Fixpoint unpack_fields (e : endian) (ws : list nat) (b : bytes) : option (list Z
   match ws with
   | [] => match b with [] => Some [] | _ => None end
   | w :: ws' =>
-      if (length b <? w)%nat then None
+      if (List.length b <? w)%nat then None
       else
         let x := firstn w b in
         let v := le_value (match e with Little => x | Big => rev x end) in
@@ -166,7 +166,7 @@ Definition has_field (k : string) (fs : list field) : bool :=
 Definition set_default (k : string) (v : Z) (fs : list field) : list field :=
   map (fun f => if String.eqb (f_name f) k then with_default f v else f) fs.
 
-(* Struct.update_default_values(**u): in the order of u; KeyError at the first unknown name *)
+(* Struct.update_default_values( **u): in the order of u; KeyError at the first unknown name *)
 Fixpoint update_defaults (fs : list field) (u : dict) : result (list field) :=
   match u with
   | [] => Ok fs
@@ -291,7 +291,7 @@ Definition boot_core (host port : Z) (image : bytes) (sv : sdef) (options : dict
                   else
                     match boot_packet BootCommand_start 0 0 (n_blocks - 1) [] with
                     | Ok d0 =>
-                        let '(ds, r) := send_blocks (length buf) 0 buf in
+                        let '(ds, r) := send_blocks (List.length buf) 0 buf in
                         match r with
                         | Ok _ =>
                             match boot_packet BootCommand_end 1 0 0 [] with
